@@ -280,3 +280,22 @@ def scale_bounds(ast, k):
             n = [n[0], n[1] * k, n[2] * k] + list(n[3:])
         return sg.with_children(n, ch)
     return go(ast)
+
+
+def fine_const_bounds(ast, sp=None):
+    """dense-time text for a specification whose default unit is 'us' and whose bounds are DECLARED CONSTANTS written in
+    seconds (sub-microsecond resolution: 0.00000025 s): returns (text, consts) with consts = [[name, 'float', decimal text], ...]"""
+    from fractions import Fraction
+    consts = {}
+
+    def one(q):
+        if q == 0:
+            return '0'
+        name = 'T%d' % q
+        consts[name] = sg.fmt_num(Fraction(q, 4) / 10 ** 6)        # q quarter-microseconds in seconds
+        return name + ' s'
+
+    def bp(lo, hi, sp_):
+        return '[' + one(lo) + ':' + one(hi) + ']'
+    text = 'out = ' + sg.to_text(ast, sp, bp) + ';'
+    return text, [[k, 'float', consts[k]] for k in sorted(consts)]
